@@ -37,7 +37,7 @@ def share_model(r):
     npk = r.choice([1, 1, 2])
     pkgs = ["a", "b"][:npk]
     classes = []
-    used = set()
+    used = []                       # a list, not a set: its iteration order feeds the PRNG choices below
     ncls = r.randint(2, 4)
     for ci in range(ncls):
         while True:
@@ -46,8 +46,8 @@ def share_model(r):
             if desc not in used:
                 break
             pool.append("k%d" % len(pool))
-        used.add(desc)
-        consts = [r.choice(pool + [d for d in used]) for _ in range(r.randint(0, 3))]
+        used.append(desc)
+        consts = [r.choice(pool + used) for _ in range(r.randint(0, 3))]
         sf, inf, dm, vm = [], [], [ctor()], []
         seen_f, seen_m = set(), {("<init>", ())}
         for _ in range(r.randint(0, 3)):
